@@ -224,17 +224,22 @@ fn prover_case(out: &mut Out, label: &str, n: usize, t_stmt: usize, values: &[u6
 
 pub fn c06(opts: &Opts, out: &mut Out) {
     let mut rng = chacha(opts.seed, 6);
+    crate::scen_core::coincidences(opts, out, "C06");
     let mut classes = std::collections::BTreeSet::new();
     let ms: &[usize] = if opts.thorough { &[1, 2, 4, 8] } else { &[1, 2, 4] };
-    for &n in &[1usize, 2, 4, 8, 16, 32, 64] {
-        for &m in ms {
-            if n * m > 256 {
+    // tall aggregates (beyond 32 values) at the smallest bit lengths, violations at a few positions
+    let tall: &[(usize, usize)] = if opts.thorough { &[(1, 64), (2, 64), (1, 256), (1, 512)] } else { &[(1, 64), (1, 256)] };
+    let grid: Vec<(usize, usize)> = [1usize, 2, 4, 8, 16, 32, 64].iter().flat_map(|n| ms.iter().map(move |m| (*n, *m))).chain(tall.iter().cloned()).collect();
+    {
+        for (n, m) in grid {
+            if n * m > 256 && m <= 32 {
                 continue;
             }
             let t = 1 + (n + m) % 3;
             let max = if n == 64 { u64::MAX } else { (1u64 << n) - 1 };
             let sc = |rng: &mut rand_chacha::ChaCha12Rng, t: usize| (0..t).map(|_| Scalar::random(rng)).collect::<Vec<_>>();
-            for j in 0..m {
+            let js: Vec<usize> = if m <= 8 { (0..m).collect() } else { vec![0, 1, m / 2, m - 1] };
+            for j in js {
                 let base_v: Vec<u64> = (0..m).map(|_| rng.next_u64() & max).collect();
                 let base_p: Vec<Option<u64>> = base_v.iter().enumerate().map(|(i, v)| if i % 2 == 0 { None } else { Some(v / 2) }).collect();
                 let bl: Vec<Vec<Scalar>> = (0..m).map(|_| sc(&mut rng, t)).collect();
